@@ -169,6 +169,21 @@ def run(chk):
             if not GMMStats.from_hdf5(p3) == st:
                 chk.fail("re-saved statistics differ (%s)" % how, dict(sctx, how=how))
             os.remove(p3)
+        # loading into an existing container of the SAME shape that is not pristine: its arrays hold a narrower type (hard integer counts,
+        # single precision) and are referenced by the caller; the loaded statistics are the file's, the caller's arrays are not written to
+        used = GMMStats(C, D)
+        used.t = 3
+        used.n = np.arange(1, C + 1, dtype=np.int64)
+        used.sum_px = np.ones((C, D), dtype=np.float32)
+        used.sum_pxx = np.full((C, D), 2, dtype=np.int32)
+        mine = (used.n, used.sum_px, used.sum_pxx)
+        mine_before = [a.copy() for a in mine]
+        used.load(ps)
+        chk.count(1, key=("stats", "load into a used container"))
+        if not (used == st and same_bits(used.n, st.n) and same_bits(used.sum_px, st.sum_px) and same_bits(used.sum_pxx, st.sum_pxx) and int(used.t) == int(st.t)):
+            chk.fail("statistics loaded into an existing (used) container of the same shape differ from the saved ones", sctx)
+        if not all(np.array_equal(a, b) for a, b in zip(mine, mine_before)):
+            chk.fail("GMMStats.load writes into arrays the caller had put into the container (they are referenced elsewhere)", sctx)
         pls = os.path.join(tmpd, "ls%d.h5" % i)
         write_legacy_stats(pls, st)
         sl = GMMStats.from_hdf5(pls)
